@@ -163,10 +163,15 @@ Proof.
 Qed.
 
 Lemma ratio_above_one r q : 100 < r -> 0 < q ->
-  0 < scale_quota r q <= q /\ q * 100 <= r * scale_quota r q < q * 100 + r.
+  0 < scale_quota r q <= q
+  /\ ratio_mant r * (scale_quota r q - 1) < q * ratio_den r < ratio_mant r * (scale_quota r q + 1)
+  /\ (r / 100 < 2 ^ 53 -> q <= 2 ^ 52 -> 100 * q - 2 * r < r * scale_quota r q < 100 * q + 2 * r).
 Proof.
   intros Hr Hq. rewrite scale_normalized by exact Hq.
-  split; [split; [now apply normalized_pos|now apply normalized_le]|now apply normalized_bounds].
+  split; [split; [now apply normalized_pos|now apply normalized_le]|].
+  split; [now apply normalized_near|].
+  intros Hlt Hq52. unfold normalized. replace (100 <? r) with true by (symmetry; apply Z.ltb_lt; lia).
+  apply ratio_div_ceil_decimal; lia.
 Qed.
 
 (* ---------- conversions of the model, stated on the model's own functions ---------- *)
